@@ -1,7 +1,7 @@
 """C13 — safe code cannot adopt a pointer without a barrier (DESIGN.md §4 C13): enumerate every way
 safe code can obtain a &Write<T> or an unlocked cell and check each against a reviewed table."""
 from gcv import facts, model, witness
-from gcv.props import common
+from gcv.props import common, C03 as c03
 from gcv.model import norm
 
 WRITE = "barrier::Write"
@@ -83,21 +83,32 @@ def write_producers(chk, prog, c):
                     producers.append(norm(d_raw))
     producers = sorted(set(producers))
     chk.floor("write-producers[%s]" % c, len(producers), 2)
-    for p in producers:
-        f = (prog.fn_n.get(p) or [None])[0]
-        ok = False
-        why = ""
+    def guard_of(fn):
+        f = (prog.fn_n.get(fn) or [None])[0]
         if f is None:
-            why = "not a plain function"
-        elif f.get("unsafe"):
-            ok, why = True, "unsafe fn"
-        else:
-            ins = f.get("inputs") or []
-            t0 = prog.ty(ins[0]["ty"]) if ins else {}
-            if t0.get("k") == "ref" and t0.get("mut"):
-                ok, why = True, "takes &mut T (exclusive access implies writability)"
-            elif any(pr["k"] == "type_outlives" and pr["lt"] == "'static" for pr in f.get("predicates", [])):
-                ok, why = True, "T: 'static (cannot hold branded pointers)"
+            return None
+        if f.get("unsafe"):
+            return "unsafe fn"
+        ins = f.get("inputs") or []
+        t0 = prog.ty(ins[0]["ty"]) if ins else {}
+        if t0.get("k") == "ref" and t0.get("mut"):
+            return "takes &mut T (exclusive access implies writability)"
+        if any(pr["k"] == "type_outlives" and pr["lt"] == "'static" for pr in f.get("predicates", [])):
+            return "T: 'static (cannot hold branded pointers)"
+        if ins and _mentions_write(prog, ins[0]["ty"]):
+            return "receives a &Write on the container (a projection: its steps are R13.9's)"
+        if any(x.callee in ("context::Mutation::backward_barrier",) for x in prog.calls_from(fn)):
+            return "issues the backward barrier itself"
+        return None
+    entry = {f_["n"] for f_ in c03.entry_points(prog)}
+    for p in producers:
+        why = guard_of(p)
+        ok = why is not None
+        if not ok and p not in entry:
+            # a private helper that only wraps the pointer: fine when every way to reach it goes through a guarded function
+            allowed = {fn for fn in prog.fn_n if guard_of(fn)}
+            if common.escapes(prog, p, allowed, entry) is None and list(prog.callers_of(p)):
+                ok, why = True, "private helper reachable only through guarded producers"
         chk.inst("R13.1-write-producer-guarded", "%s[%s]" % (p, c), ok,
                  detail="`%s` manufactures a &Write from a plain reference from safe code without a 'static bound, "
                         "&mut access or an unsafe contract" % p,
